@@ -17,7 +17,7 @@ RULE = ("fmt: the whole accepted grammar fill{none,' ','*','0','x'} x align{none
         "reset-less or not) read by fields/conditions/tests, 1-2 clock domains (pos/neg edge, no reset / sync reset / "
         "async reset), an optional comb-domain program, nested If/Elif/Else and Switch/Case/Default (lowered by the "
         "Gallina model), Print(Format) with 1-3 fields over sig/as_signed/as_unsigned/~/-, Assert/Assume/Cover with and "
-        "without message, driven by hand over 6-16 steps (set input / toggle one clock / change one reset); plus every "
+        "without message, driven by hand over 6-16 steps (set input / toggle one clock / change one reset / clock and reset of a domain in one command); plus every "
         "29th accepted spec of the grammar (every 3rd in thorough) printed by the real simulator for 3 values; "
         "observable = captured stdout + exception class/text + step index; "
         "rtl: FORMAT parameter of the $print cell written by back.rtlil for Print(Format('x{' '{:spec}', sig)) over every "
@@ -34,8 +34,8 @@ MODELLED = ("Format._FORMAT_SPEC_PATTERN/_parse_format_spec, _StatementCompiler.
             "str.format holds because the simulator calls str.format and is validated only; submodules, FSMs and "
             "control inserters are not generated here (C02/C03/C08 own them)")
 ASSUMPTIONS = ["CPython 3.12 int/str __format__ and UTF-8 decoding as modelled by Format.py_format (validated by the fmt stream)",
-               "async-reset domains: the model is run with the semantics of the unrepaired code for finding F7 "
-               "(F7_FAITHFUL in c20.py; theorem C20_async_reset_F7_refuted); the finding itself is listed under C03",
+               "async-reset domains are generated with the documented semantics (F7 repaired in /repo 574e1db); the "
+               "pre-repair semantics remains selectable (F7_FAITHFUL in c20.py, theorem C20_async_reset_F7_refuted)",
                "two clocks are never toggled in the same testbench command (process order within one delta belongs to C08)"]
 SHARD = 600
 
@@ -377,7 +377,7 @@ def _rand_sim(rng, thorough):
     for d in range(ndom):
         top = rng.choice([0, 1, 1, 2, 2, 3])
         has_rst = rng.random() < 0.55
-        doms.append({"pos": rng.random() < 0.7, "rst": has_rst, "async": has_rst and rng.random() < 0.2,
+        doms.append({"pos": rng.random() < 0.7, "rst": has_rst, "async": has_rst and rng.random() < 0.35,
                      "prog": body(top)})
     comb = []
     if rng.random() < 0.25:
@@ -404,11 +404,14 @@ def _rand_sim(rng, thorough):
         if r < 0.4:
             i = rng.randrange(ninputs)
             steps.append(["set", i, rand_val(i)])
-        elif r < 0.9 or not doms[d]["rst"]:
+        elif r < 0.86 or not doms[d]["rst"]:
             clk[d] = (1 - clk[d]) if rng.random() < 0.9 else clk[d]
             steps.append(["clk", d, clk[d]])
-        else:
+        elif r < 0.95:
             steps.append(["rst", d, rng.randrange(2) if rng.random() < 0.5 else 1])
+        else:                           # reset changes together with the clock
+            clk[d] = (1 - clk[d]) if rng.random() < 0.8 else clk[d]
+            steps.append(["both", d, clk[d], rng.randrange(2) if rng.random() < 0.4 else 1])
     kinds = [k for k in ("print", "prop", "ctl") if stats[k]]
     cls = ("+".join(kinds) + ("+reg" if regs else "") + ("+comb" if comb else "") + ("+2dom" if ndom > 1 else "")
            + ("+async" if any(dm["async"] for dm in doms) else "")
@@ -532,7 +535,7 @@ def _run_rtl(c):
 
 
 def _run_sim(c):
-    from amaranth.hdl import Shape, Signal, Format, Module, ClockDomain, Print, Assert, Assume, Cover
+    from amaranth.hdl import Shape, Signal, Format, Module, ClockDomain, Print, Assert, Assume, Cover, Cat
     from amaranth.sim import Simulator
     c = _upgrade(c)
     regs = {r["i"]: r for r in c["regs"]}
@@ -610,8 +613,10 @@ def _run_sim(c):
                 ctx.set(sigs[st[1]], st[2])
             elif st[0] == "clk":
                 ctx.set(cds[st[1]].clk, st[2])
-            else:
+            elif st[0] == "rst":
                 ctx.set(cds[st[1]].rst, st[2])
+            else:                       # clock and reset of one domain in one command
+                ctx.set(Cat(cds[st[1]].clk, cds[st[1]].rst), st[2] | (st[3] << 1))
         cur[0] = len(c["steps"])
 
     buf = io.StringIO()
@@ -680,8 +685,8 @@ def _dstmt(st):
     raise ValueError(st)
 
 
-F7_FAITHFUL = True      # the model follows the unrepaired code for F7 (an async reset rise runs the sync process);
-                        # theorem C20_async_reset_F7_refuted states the deviation.  Set to False once F7 is fixed.
+F7_FAITHFUL = False     # True = semantics of the code before the repair of F7 (/repo 574e1db): an async reset rise
+                        # ran the sync process (theorem C20_async_reset_F7_refuted shows the observable difference)
 
 
 def _design_term(c, f7, bf):
@@ -697,8 +702,10 @@ def _design_term(c, f7, bf):
             steps.append(f"TSet {st[1]} {z(st[2])}")
         elif st[0] == "clk":
             steps.append(f"TClk {st[1]} {blit(st[2])}")
-        else:
+        elif st[0] == "rst":
             steps.append(f"TRst {st[1]} {blit(st[2])}")
+        else:
+            steps.append(f"TBoth {st[1]} {blit(st[2])} {blit(st[3])}")
     return (f"k_design {blit(f7)} {blit(bf)} (Design {sigs} {doms} (lower_prog ({_dprog(c['comb'])})) {regs}) ["
             + "; ".join(steps) + "]")
 
